@@ -135,20 +135,74 @@ theorem blacklisted_address_never_walkable (a b c : Nat) (pre post : List Op) (x
     obtain ⟨_, w, hw', _⟩ := (hw x).1 hmem
     exact mem_akeys_iff.2 ⟨w, hw'⟩
 
-/-- Snapshot round trip: loading `snapshot()` of any graph into a fresh Network makes exactly the snapshot's
-    addresses walkable, and these are exactly the preferred addresses (Peer.INTERFACE_ORDER, generated) of the verified
-    peers other than 0.0.0.0:0 — for well-formed address values (`WFAddr`: what Address.pack encodes without loss). -/
-theorem snapshot_roundtrip (g : Graph) (hwf : ∀ x ∈ g.snapshotAddrs, WFAddr x) (a b c : Nat) (x : Addr) :
-    (x ∈ (((init a b c).loadSnapshot g.snapshot).walkable none false).1 ↔ x ∈ g.snapshotAddrs) ∧
+/-- a fresh Network whose blacklists have already been filled (bootstrap addresses, own mid) -/
+def fresh (bl : List Addr) (bm : List Key) (a b c : Nat) : Net :=
+  { init a b c with g := { blAddr := bl, blMid := bm } }
+
+/-- Snapshot round trip: loading `snapshot()` of any graph into a fresh Network — whatever blacklists that Network
+    already carries — makes exactly the snapshot's addresses walkable, and these are exactly the preferred addresses
+    (Peer.INTERFACE_ORDER, generated) of ALL verified peers other than 0.0.0.0:0, whether or not such an address is
+    registered in `_all_addresses` — for well-formed address values (`WFAddr`: what Address.pack encodes without loss).
+    Judgement recorded here: "exactly those addresses" is what the code does *because* load_snapshot ignores the address
+    blacklist; a blacklist filter in load_snapshot would falsify this statement for a snapshot holding a blacklisted
+    address. -/
+theorem snapshot_roundtrip (g : Graph) (hwf : ∀ x ∈ g.snapshotAddrs, WFAddr x) (bl : List Addr) (bm : List Key)
+    (a b c : Nat) (x : Addr) :
+    (x ∈ (((fresh bl bm a b c).loadSnapshot g.snapshot).walkable none false).1 ↔ x ∈ g.snapshotAddrs) ∧
     (x ∈ g.snapshotAddrs ↔ ∃ p ∈ g.verified, p.preferred = some x ∧ x ≠ zeroAddr) := by
   refine ⟨?_, mem_snapshotAddrs g x⟩
   have hd : decodeAll g.snapshot.length g.snapshot = g.snapshotAddrs :=
     decodeAll_encode g.snapshotAddrs hwf _ (Nat.le_refl _)
-  have h1 : x ∈ (((init a b c).loadSnapshot g.snapshot).walkable none false).1 ↔
+  have h1 : x ∈ (((fresh bl bm a b c).loadSnapshot g.snapshot).walkable none false).1 ↔
       x ∈ akeys (loadAddrs [] g.snapshotAddrs) := by
-    simp [Net.walkable, Net.loadSnapshot, hd, init]
+    simp [Net.walkable, Net.loadSnapshot, hd, fresh, init]
   rw [h1, mem_akeys_loadAddrs]
   simp [akeys]
+
+/-- The docstring of `verified_peers` says "Peer.address must be in _all_addresses".  The code does not maintain that:
+    after an address update of a known key (or after remove_peer of another identity on the same address) a verified
+    peer's address is NOT a known address.  Proved with a reachable witness; the lookups, removals and the snapshot above
+    are proved without assuming it. -/
+theorem verified_address_need_not_be_known :
+    ∃ ops : List Op, ∃ p ∈ (run (init 1 1 1) ops).g.verified, ∃ x,
+      p.preferred = some x ∧ x ∉ akeys (run (init 1 1 1) ops).g.allAddr :=
+  ⟨[.add ⟨0, [(0, ⟨4, [10, 0, 0, 1], 4001⟩)]⟩, .add ⟨0, [(0, ⟨4, [10, 0, 0, 2], 4002⟩)]⟩],
+   ⟨0, [(0, ⟨4, [10, 0, 0, 2], 4002⟩)]⟩, by decide, ⟨4, [10, 0, 0, 2], 4002⟩, by decide⟩
+
+/-- What does hold: at the moment add_verified_peer makes a key verified, at least one of the addresses the peer came
+    with is a known address. -/
+theorem newly_verified_has_known_address (a b c : Nat) (ops : List Op) (p : Peer) :
+    let s := run (init a b c) ops
+    let s' := step s (Op.add p)
+    p.key ∉ s.g.keys → p.key ∈ s'.g.keys → p.addrList ≠ [] → ∃ x ∈ p.addrList, x ∈ akeys s'.g.allAddr := by
+  intro s s' h1 h2 h3
+  have hc : Coherent s := cache_coherent a b c ops
+  have hg : s'.g = s.g.addVerified p := step_g hc (Op.add p)
+  rw [hg] at h2 ⊢
+  exact addVerified_known_address s.g p h1 h2 h3
+
+/-
+  FULL STATEMENT (address blacklist, strong reading): "an identity that presents itself from a blacklisted address never
+  becomes verified".  It is FALSE for the code (and the model mirrors the code) — see `address_blacklist_is_best_effort`
+  below: the `blacklist` is only consulted (a) by discover_address for the introduced address and (b) by
+  add_verified_peer when none of the peer's addresses is known yet.  What is proved is the part that holds:
+-/
+/-- PARTIAL.  From any reachable state in which `x` is blacklisted and not a known address: a key that is only ever
+    presented (add_verified_peer / discover_address) with the single address `x` never becomes verified, as long as no
+    load_snapshot happens.  Missing w.r.t. the full statement: peers presenting several addresses, addresses that were
+    known before they were blacklisted, load_snapshot, address updates of already verified keys. -/
+theorem address_blacklisted_identity_never_verified_partial (a b c : Nat) (pre post : List Op) (x : Addr) (k : Key) :
+    let s := run (init a b c) pre
+    x ∈ s.g.blAddr → x ∉ akeys s.g.allAddr → k ∉ s.g.keys →
+    (∀ op ∈ post, op.isLoad = false) →
+    (∀ op ∈ post, ∀ p, op.verifies = some p → p.key = k → p.addrList ≠ [] ∧ ∀ y ∈ p.addrList, y = x) →
+    k ∉ (run s post).g.keys ∧ (run s post).getByKey k = none := by
+  intro s hb hk hkey hl hp
+  have hc : Coherent s := cache_coherent a b c pre
+  have hc' : Coherent (run s post) := coherent_run_of hc post
+  have : k ∉ (run s post).g.keys := by
+    rw [run_g hc post]; exact run_only_blacklisted s.g post x k hl hb hk hkey hp
+  exact ⟨this, (no_lookup_returns hc' this).1⟩
 
 /-- The three caches never exceed their caps, whatever the history. -/
 theorem lru_bounded (a b c : Nat) (ops : List Op) : Bounded (run (init a b c) ops) :=
@@ -162,6 +216,23 @@ def a3 : Addr := ⟨4, [10, 0, 0, 3], 4003⟩
 def p0 : Peer := ⟨0, [(0, a1)]⟩
 def p0' : Peer := ⟨0, [(0, a2)]⟩
 def p1 : Peer := ⟨1, [(0, a2)]⟩
+
+/-- NEGATION of the strong reading of the address blacklist, three reachable witnesses: a peer on a blacklisted address
+    becomes verified (1) when the address came in through load_snapshot, (2) when it presents a second, known address,
+    (3) when the address was known before it was blacklisted. -/
+theorem address_blacklist_is_best_effort :
+    (5 ∈ (run (init 2 2 2) [.blAddr a3, .load (encodeAddr a3), .add ⟨5, [(0, a3)]⟩]).g.keys) ∧
+    (5 ∈ (run (init 2 2 2) [.blAddr a3, .add p1, .add ⟨5, [(0, a2), (1, a3)]⟩]).g.keys) ∧
+    (5 ∈ (run (init 2 2 2) [.disc p1 a3 none false, .blAddr a3, .add ⟨5, [(0, a3)]⟩]).g.keys) := by decide
+
+/-- hypotheses of `address_blacklisted_identity_never_verified_partial` hold in a reachable state, and the identity is
+    indeed refused there while another one is accepted -/
+example : let s := run (init 2 2 2) [.blAddr a3, .add p1, .add ⟨5, [(0, a3)]⟩]
+    a3 ∈ s.g.blAddr ∧ a3 ∉ akeys s.g.allAddr ∧ 5 ∉ s.g.keys ∧ 1 ∈ s.g.keys := by decide
+
+/-- `snapshot_roundtrip` with a blacklist that contains a snapshot address: it is walkable after the load -/
+example : (((fresh [a1] [] 2 2 2).loadSnapshot (run (init 2 2 2) [.add p0]).g.snapshot).walkable none false).1 = [a1] := by
+  decide
 
 /-- the stale-cache shape (query, removal, query) on tiny caches: the lookup by address is `none` after the removal -/
 example : ((run (init 1 1 1) [.add p0, .qAddr a1 none, .rmPeer p0]).getByAddr a1 none).1 = none := by decide
